@@ -27,6 +27,8 @@ public:
         void* buf = nullptr;
         int count = 0;
         int dtype = 0;
+        int comm = 0;              // communicator of the collective the rank waits in
+        int color = 0;             // group of the rank when the world is split (communicator 100 + color)
         bool kill = false;
         std::uint64_t stall = 0;
         std::string what;          // exception text if the rank died of one
@@ -56,12 +58,15 @@ public:
     std::uint64_t step_budget = 0;
 
     // used by the MPI_* entry points
-    int allreduce(int rank, void* buf, int count, int dtype);
+    int allreduce(int rank, void* buf, int count, int dtype, int comm);
+    int comm_rank(int comm, int world_rank) const;
+    int comm_size(int comm, int world_rank) const;
 
 private:
     void give(int r);               // scheduler: hand the baton to r and wait until it comes back
     void yield_from(int r);         // rank: hand the baton to the scheduler and wait for it
-    void reduce_all();
+    void reduce_group(std::vector<int> const& members);
+    std::vector<int> members_of(int comm, int world_rank) const;
 
     std::mutex m_;
     std::condition_variable cv_;
